@@ -1,6 +1,74 @@
-"""Bounded native contracts for C12 (element classes round-trip), C13 (styles) and C14 (identifiers).
+"""Bounded native contracts for C12 (element classes round-trip), C13 (styles) and C14 (identifiers are found again).
 
-WORK IN PROGRESS
+Bounded stand-ins (DESIGN 2.9): evaluated natively on the real odfdo over the finite scopes stated in each
+contract's ``bounded["scope"]``; never counted as proved.  All oracles use raw lxml (``obj._Element__element``),
+C14N and tables written here from the property statements / ODF rules -- never the odfdo API under check.
+
+Contracts
+---------
+C12  odfdo.element:Element.from_tag[registry]        registry enumerated at check time + pinned tag->class table +
+                                                     classes declaring a registered _tag: dispatch, reparse
+     odfdo.element:Element[access paths]             one synthetic tree with every registered tag at depth 2 and 3:
+                                                     children, get_elements, xpath, get_element, parent, clone
+     odfdo.element:Element.__init__[registered classes]  type-directed constructor arguments: exposes[<Class>],
+                                                     exposes_str_type, exposes_scalar_type, serial_xml, reparse_*
+C13  odfdo.document:Document.insert_style[sequences] operation sequences over 8 documents: container (dispatch table
+                                                     _expected_place), unique[<family>], lookup[<family>], auto_name,
+                                                     frame, reload, page_break, delete_all, table_displayed, merge_*
+     odfdo.document:Document.merge_styles_from       49 document pairs: union (theirs win / ours kept), source unchanged
+C14  odfdo.utils.xpath_query:make_xpath_query[lookups by name or id]
+                                                     32 lookup entry points x identifiers over {a, space, ", ', &, <,
+                                                     ], [, e-acute, =}: found_plain / found_apos / found_dquote
+
+Normalisations accepted by the C12 constructor contract (documented behaviour, kept in small tables below):
+'' / None = not given; False <-> attribute absent; repeated=1 / Spacer(number=1) <-> absent (ODF defaults); a falsy
+argument may read back as the value of the call without it; date -> datetime at midnight; Style arguments apply to
+their family only (_STYLE_BY_FAMILY); Cell(currency=) needs cell_type='currency' and a value; VarSet(display=) is an
+on/off switch; Reference(ref_format=), NamedRange(usage=, crange=), Cell(cell_type=) are drawn from their documented
+enumerations; colour parameters get '' and '#FF0000'; homonyms of the generic Element accessors (text, parent, tail)
+are not "the argument's property".  C14: identifiers the setter rejects (ValueError/TypeError) or normalises (Table
+strips blanks) are outside the domain; get_section takes no name, so it is not an identifier lookup.
+
+Findings on the unchanged tree: see FINDINGS at the end (18 entries, every witness sets REPRODUCED = True).
+
+Self-test (tools/mutrun.py, quick tier; every one changes the set of failing clause labels):
+kills: C12 registry      - bookmark.py `_tag = "text:bookmark"` -> "text:bookmark-x" (class under a wrong tag): pinned
+                         - element.py `if tag not in _class_registry` -> `if True` (last registration wins): pinned
+                           (style:tab-stop -> TabStopStyle), own_tag finding disappears
+                         - cell.py register "table:covered-table-cell" -> "table:table-row": pinned
+       C12 access paths  - element.py parent `Element.from_tag(parent)` -> `Element(tag_or_elem=parent)`: path_parent
+                         - element.py from_tag_for_clone `klass = _class_registry.get(tag, cls)` -> `cls`:
+                           path_get_elements
+                         - element.py children `Element.from_tag(e)` -> `Element(tag_or_elem=e)`: path_children, path_clone
+       C12 constructors  - element.py setter `value = Boolean.encode(value)` -> `str(value)`: exposes[VarDate],
+                           exposes[VarCreationDate], ... (bool arguments)
+                         - section.py `self.name = name` -> `self.style = name`: exposes[Section]
+                         - element.py serialize result `.replace('="x"', '="y"')`: serial_xml, reparse_c14n, reparse_props
+                         - element.py from_tag `klass = _class_registry.get(elem.tag, cls)` -> `cls`: reparse_class,
+                           dispatch, reparse, all path_* clauses
+       C13 sequences     - document.py `elif automatic is True and default is False` -> `automatic is False`:
+                           no_raise_automatic
+                         - document.py `max_index + 1` -> `max_index`: auto_name, unique[paragraph|text|...]
+                         - document.py `style_container.delete(existing)` -> `pass`: unique[*], frame
+                         - document.py default insert without `style.tag = "style:default-style"`: container, frame
+                         - document.py font-face `if default:` -> `if not default:`: container
+                         - document.py delete_styles keeps no default styles (`if False`): delete_all, frame
+                         - document.py add_page_break_style fo:break-after -> fo:break-before: page_break
+                         - document.py set_table_displayed `Boolean.encode(not displayed)`: table_displayed
+                         - document.py save without `container.set_part(path, part.serialize())`: reload
+       C13 merge         - document.py merge_styles_from `duplicate.delete()` -> `pass`: merge_union_theirs, unique[*]
+                         - document.py merge_styles_from styles part -> self.content: no_raise_other
+       C14               - utils/xpath_query.py quote characters swapped ([@q='v']): found_apos
+                         - utils/xpath_query.py closing quote dropped: found_plain, found_apos
+                         - utils/xpath_query.py `[@q]` for non-True values: found_plain, found_apos
+                         - element.py get_references predicate `[@text:ref-name]`: found_plain
+                         - element.py get_named_range without the name predicate: found_plain
+                         - element.py get_reference_mark second branch without predicate: found_plain
+                         - manifest.py get_media_type `starts-with(...)` instead of `=`: found_plain
+missed: none of the 28 tried.  Not label-visible by construction: changes that only alter HOW OFTEN an already known
+        clause fails (e.g. dropping '//office:automatic-styles' from CONTEXT_MAPPING['paragraph'] removes part of the
+        no_raise_common finding) and the order in which Document.get_style consults content.xml / styles.xml when the
+        same family+name exists in both (the lookup clause is only evaluated for unambiguous names).
 """
 from __future__ import annotations
 
@@ -827,11 +895,11 @@ def _gen_style_seq(con, sigcase, count, seed):
         for o in ops:                       # insertion into a document whose named styles are gone
             if o[0] == "ins" and o[3] == "common":
                 yield {"doc": src, "ops": (("delete",), o)}
-        if thorough or src == "text":
+        if src == "text" or (thorough and src in ("spreadsheet", _SAMPLES + "lpod_styles.odt")):
             for o1 in ops:
                 for o2 in ops:
                     yield {"doc": src, "ops": (o1, o2)}
-        n_random = 1500 if thorough else 80
+        n_random = 600 if thorough else 80
         for _ in range(n_random):
             n = rnd.choice((2, 3, 3, 4, 4) if thorough else (2, 3, 3))
             yield {"doc": src, "ops": tuple(rnd.choice(ops) for _ in range(n))}
@@ -1038,7 +1106,9 @@ def _style_step(doc, op, step, before, live, res, bad):
         flag = op[1]
         res.checked += 1
         table0 = [ch for ch in _raw(doc.body) if ch.tag == _lx("table:table")][0]
-        tlabel = "table_displayed" if _attr(table0, "table:style-name") else "table_displayed_unstyled"
+        has_style = any(k == ("style:style", "table", _attr(table0, "table:style-name"))
+                        for lst in before.values() for k, _c, _n in lst)
+        tlabel = "table_displayed" if has_style else "table_displayed_unstyled"   # no (real) table style before
         try:
             doc.set_table_displayed(0, flag)
         except Exception as ex:  # noqa
@@ -1141,8 +1211,8 @@ contract(
                        "font-face (content / styles), the same with names already present in each container of the "
                        "document, add_page_break_style, delete_styles, set_table_displayed(0, bool), "
                        "merge_styles_from(text template + 1 style); all sequences of length 1, every insertion twice, every common insertion after "
-                       "delete_styles, all sequences of length 2 over the text template, 80 random sequences of length 2-3 per document (thorough: all of length 2, "
-                       "1500 random of length 2-4); raw-lxml snapshot of the 8 containers after every step, save to "
+                       "delete_styles, all sequences of length 2 over the text template, 80 random sequences of length 2-3 per document (thorough: all of length 2 also over "
+                       "the spreadsheet template and lpod_styles.odt, 600 random of length 2-4); raw-lxml snapshot of the 8 containers after every step, save to "
                        "BytesIO + reload at the end",
                  reason="histories over a document; XPath lookups are assumed in the proof plan"),
 )
